@@ -34,6 +34,8 @@ NUMBERS = ['0', '1', '2', '7', '10', '42', '255', '1000000', '1.5', '0.5', '.5',
 STRINGS = ["'a'", '"a"', "''", '""', "'it\\'s'", '"say \\"hi\\""', "'a\\nb'", "'\\x41'", "'\\u0041'", "'\\0'",
            "'\\101'", "'\\7'", "'tab\\t'", "'back\\\\slash'", "'é'", '"日本"', "'a b'", "'//x'", "'/*x*/'",
            "'</script>'", "'\\v\\f\\b\\r'", "'q\"q'", '"q\'q"', "'\\e\\q'", "'\U0001F600'"]
+# characters that Python's str.splitlines treats as line boundaries but ES5 does not (VT, FF, FS, GS, RS, NEL)
+STRINGS += ["'a\x0bb'", "'a\x0cb'", "'\x1c\x1d\x1e'", "'n\x85l'", '"\x0b"']
 STRINGS_CONT = ["'a\\\nb'", '"a\\\r\nb"', "'a\\ b'", "'x\\\ny\\\nz'"]
 REGEXES = ['/a/', '/ab+c/g', '/[/]/', '/\\//', '/a|b/i', '/[^\\]]+/m', '/\\d+/gi', '/(?:x)*/', '/[a-z]/', '/=x/',
            '/ /', '/\\[/', '/a{1,2}/', '/^$/', '/[\\/]/', '/é/', '/x/gim']
@@ -635,7 +637,7 @@ def render(rng, toks, layout=None, stats=None):
                 elif allow_nl and rng.random() < 0.3:
                     s += '/* m' + rng.choice(terms) + ' */'
                 else:
-                    s += '/*' + rng.choice(['', ' c ', '*', '/', '//']) + '*/'
+                    s += '/*' + rng.choice(['', ' c ', '*', '/', '//', '\x0b', '\x0c', '\x85', '\x1c']) + '*/'
                 s += rng.choice(['', ' '])
             if need and not s:
                 s = ' '
